@@ -13,6 +13,8 @@ RULE = ("random rose trees 1-12 leaves (30 in thorough; unary nodes/chains incl.
         "API variants (prune_taxa, prune_taxa_with_labels, retain_taxa, retain_taxa_with_labels, filter_leaf_nodes, "
         "prune_leaves_without_taxa, extract_tree_with_taxa(_labels), extract_tree_without_taxa(_labels), extract_tree) run on the same "
         "input; plus filter_leaf_nodes / extract_tree with arbitrary node-id predicates (recursive on/off, leaf/internal filter flags), "
+        "the four by-label entry points on namespaces where several taxa match one label (equal labels on distinct Taxon objects, labels "
+        "differing only in case, case-sensitive and case-insensitive namespaces, labels given in another case or absent); "
         "prune_subtree at every kind of node, Node.extract_subtree started at any node, prune_taxa with the leaf/internal flags on trees with "
         "internal taxa; the driver's measurement functions (clade masks, leaf-to-leaf path lengths) and both specifications (restrict, "
         "restrictA) are compared with from-scratch Python walks; sources carry tree/edge/node labels and a weight. thorough adds every "
@@ -641,6 +643,119 @@ def subtree_case(ctx, dendropy, case, pending):
         pending.append((line, case, impl_text(out)))
 
 
+LABEL_VARIANTS = ["prune_taxa_with_labels", "retain_taxa_with_labels", "extract_tree_with_taxa_labels",
+                  "extract_tree_without_taxa_labels"]
+
+
+def label_matches(case, have, given):
+    """does the taxon label `have` match the requested label `given` under the namespace's rule"""
+    if case["case_sensitive"]:
+        return have == given
+    return str(have).lower() == str(given).lower()
+
+
+def labels_case(ctx, dendropy, case, pending, variants=None):
+    """by-label entry points on namespaces where several taxa match one label (equal labels on distinct Taxon objects, labels that
+    differ only in case): every leaf whose LABEL is named goes (prune / without) or stays (retain / with); all four agree with
+    the induced subtree on the leaves whose labels survive, hence with each other on complementary label lists"""
+    src = Src(case["tree"])
+    lab = dict(zip(case["ns"]["bits"], case["labels"]))     # taxon bit -> label
+    given = case["given"]
+    named = [i for i in src.leaves if any(label_matches(case, lab[src.tax[i]], g) for g in given)]
+    unnamed = [i for i in src.leaves if i not in named]
+    ttoks = " ".join(case["tree"])
+    sup, upd = case["sup"], case["upd"]
+    # replay field for triage: some named leaf is named only through the namespace's case folding (no exact match)
+    case = dict(case, only_case_folded_match=any(not any(lab[src.tax[i]] == g for g in given) for i in named))
+    for variant in (variants or LABEL_VARIANTS):
+        removing = variant in ("prune_taxa_with_labels", "extract_tree_without_taxa_labels")
+        kept = unnamed if removing else named
+        if not kept:
+            continue          # the quantifier keeps at least one leaf
+        inplace = variant in ("prune_taxa_with_labels", "retain_taxa_with_labels")
+        if upd and not inplace:
+            continue
+        surv = survivors_induced(src, kept)
+        ctx.case(["labels", case["tree"], case["labels"], given, case["case_sensitive"], sup, upd, variant], 1 < len(kept) < len(src.leaves),
+                 kind=variant + "-multi", sample=dict(case, variant=variant))
+        tree, ids = make_tree(dendropy, case)
+        tns = tree.taxon_namespace
+        tns.is_case_sensitive = case["case_sensitive"]
+        for t in tns:
+            t.label = lab[tns.accession_index(t)]         # relabelled after construction: several taxa may now share a label
+        out = {"removed": None, "source": None, "ids": ids, "idfn": ids.of, "tree": tree}
+        kept_bits = sorted(src.tax[i] for i in kept)
+        gone_bits = sorted(src.tax[i] for i in src.leaves if i not in kept)
+        try:
+            if variant == "prune_taxa_with_labels":
+                tree.prune_taxa_with_labels(list(given), update_bipartitions=upd, suppress_unifurcations=sup)
+                out["line"] = "prune %d 1 0 %s %s" % (sup, nums(gone_bits), ttoks)
+            elif variant == "retain_taxa_with_labels":
+                tree.retain_taxa_with_labels(list(given), update_bipartitions=upd, suppress_unifurcations=sup)
+                out["line"] = "retain %d %s %s %s" % (sup, nums(case["ns"]["bits"]), nums(kept_bits), ttoks)
+            else:
+                out["source"] = tree
+                out["fp_before"] = fingerprint(tree)
+                if variant == "extract_tree_with_taxa_labels":
+                    out["tree"] = tree.extract_tree_with_taxa_labels(list(given), suppress_unifurcations=sup)
+                    out["line"] = "extract %d 1 0 taxa %s %s" % (sup, nums(kept_bits), ttoks)
+                else:
+                    out["tree"] = tree.extract_tree_without_taxa_labels(list(given), suppress_unifurcations=sup)
+                    out["line"] = "extract %d 1 0 nottaxa %s %s" % (sup, nums(gone_bits), ttoks)
+                out["idfn"] = (lambda ids_: (lambda nd: ids_.of(getattr(nd, "extraction_source", None))))(ids)
+        except RecursionError:
+            raise
+        except Exception as e:
+            ctx.fail("exception", "%s(%r) raised %s: %s" % (variant, given, type(e).__name__, str(e)[:200]), dict(case, variant=variant))
+            continue
+        c2 = dict(case, clause_checks=False)     # leaf_paths keys leaves by label, which is not unique here
+        n0 = len(ctx.failures)
+        bad = judge(ctx, c2, variant, src, surv, out)
+        if bad:
+            # say what the statement means here
+            f = ctx.failures[-1] if len(ctx.failures) > n0 else None
+            if f is not None:
+                f["what"] = ("labels %r named on a %s namespace whose labels are %r: the leaves whose labels %s must remain; %s" % (
+                    given, "case-sensitive" if case["case_sensitive"] else "case-insensitive", case["labels"],
+                    "are not named" if removing else "are named", f["what"]))[:900]
+        else:
+            pending.append((out["line"], dict(case, variant=variant), impl_text(out)))
+
+
+def gen_labels_case(dendropy, rng, max_leaves):
+    case = gen_input(dendropy, rng, max(2, max_leaves))
+    src = Src(case["tree"])
+    bits = case["ns"]["bits"]
+    nclasses = max(1, rng.randint(1, max(1, len(bits) - 1)))
+    pool = ["A", "B", "C", "D", "sp e", "F_1", "g"][:max(1, min(7, nclasses))]
+    cs = rng.random() < 0.35
+    labels = []
+    for b in bits:
+        base = rng.choice(pool)
+        r = rng.random()
+        if r < 0.3:
+            base = base.lower()
+        elif r < 0.45:
+            base = base.upper()
+        labels.append(base)
+    if rng.random() < 0.25:
+        labels = ["u%d" % b for b in bits]            # unique labels: the ordinary situation
+        for _ in range(rng.randint(1, 2)):
+            i, j = rng.randrange(len(bits)), rng.randrange(len(bits))
+            labels[j] = labels[i].upper() if rng.random() < 0.5 else labels[i]
+    have = sorted(set(labels))
+    given = [l for l in have if rng.random() < rng.choice([0.3, 0.5])] or [rng.choice(have)]
+    if rng.random() < 0.3:
+        given = [g.swapcase() if rng.random() < 0.5 else g for g in given]
+    if rng.random() < 0.15:
+        given.append("absent")
+    rng.shuffle(given)
+    case.update(op="labels", labels=labels, given=given, case_sensitive=cs, sup=rng.random() < 0.6, upd=rng.random() < 0.2)
+    if case["upd"]:
+        case["rooted"] = "R"
+    return case
+
+
 def flags_case(ctx, dendropy, case, pending):
     """prune_taxa with is_apply_filter_to_leaf_nodes / _internal_nodes on trees that carry taxa on internal nodes.
     The statement speaks about leaves; here only the correspondence with the model is checked (plus well-formedness)."""
@@ -825,6 +940,8 @@ def run_case(ctx, dendropy, case, pending, variants=None):
         flags_case(ctx, dendropy, case, pending)
     elif op == "extract_node":
         extract_node_case(ctx, dendropy, case, pending)
+    elif op == "labels":
+        labels_case(ctx, dendropy, case, pending, variants)
     else:
         raise ValueError("unknown op in case: %r" % (op,))
 
@@ -860,7 +977,10 @@ def run(ctx):
         if ctx.out_of_time():
             break
         ml = max_leaves if rng.random() < 0.85 else 4
-        if rng.random() < 0.55:
+        r0 = rng.random()
+        if r0 < 0.12:
+            case = gen_labels_case(dendropy, rng, ml)
+        elif r0 < 0.6:
             case = gen_taxon_case(dendropy, rng, ml)
         else:
             case = gen_pred_case(dendropy, rng, ml)
@@ -926,10 +1046,11 @@ def exhaustive(ctx, dendropy, pending):
 def replay(ctx, rec):
     dendropy = __import__("dendropy")
     case = dict(rec["replay"])
+    case.pop("only_case_folded_match", None)
     pending = []
     variant = case.pop("variant", None)
     case.pop("clause_checks", None)
-    run_case(ctx, dendropy, case, pending, variants=[variant] if (variant and variant in TAXON_VARIANTS) else None)
+    run_case(ctx, dendropy, case, pending, variants=[variant] if (variant and variant in TAXON_VARIANTS + LABEL_VARIANTS) else None)
     flush(ctx, pending)
 
 
